@@ -305,7 +305,7 @@ impl Machine {
             S::FnDecl(name, params, ret, body) => self.declare(name, params, ret, body, env),
             S::Destruct(names, rhs) => {
                 let v = self.scoped(rhs, env)?;
-                let V::Tup(items) = &v else { return giveup("destructuring a non-tuple") };
+                let V::Tup(items) = &v else { return untracked(&v, "destructuring") };
                 for (n, item) in names.iter().zip(items.iter()) {
                     *env = bind(env, n, item.clone());
                 }
@@ -461,7 +461,7 @@ impl Machine {
     pub fn call(&mut self, f: &V, args: &[V]) -> R<V> {
         self.tick()?;
         self.calls += 1;
-        let V::Fun(fun) = f else { return giveup("call of a non-function") };
+        let V::Fun(fun) = f else { return untracked(f, "call") };
         if self.depth > 150 {
             return giveup("reference recursion depth");
         }
@@ -497,7 +497,7 @@ impl Machine {
                 }
             }
             FunV::Map { src, f } => {
-                let Some((more, x)) = self.pull(src)? else { return giveup("map source is not an iterator") };
+                let Some((more, x)) = self.pull(src)? else { return untracked(src, "map source pull") };
                 if !more {
                     return Ok(tup(vec![V::Bool(false), V::Unspec]));
                 }
@@ -506,7 +506,7 @@ impl Machine {
             }
             FunV::Filter { src, p } => loop {
                 self.tick()?;
-                let Some((more, x)) = self.pull(src)? else { return giveup("filter source is not an iterator") };
+                let Some((more, x)) = self.pull(src)? else { return untracked(src, "filter source pull") };
                 if !more {
                     return Ok(tup(vec![V::Bool(false), V::Unspec]));
                 }
@@ -518,7 +518,7 @@ impl Machine {
             },
             FunV::TypeFilter { src, ty } => loop {
                 self.tick()?;
-                let Some((more, x)) = self.pull(src)? else { return giveup("type filter source is not an iterator") };
+                let Some((more, x)) = self.pull(src)? else { return untracked(src, "type filter source pull") };
                 if !more {
                     return Ok(tup(vec![V::Bool(false), V::Unspec]));
                 }
@@ -644,12 +644,12 @@ impl Machine {
                 let r = self.expr(b, env)?;
                 match op {
                     "=" => {
-                        let V::Cell(c) = &l else { return giveup("assignment to a non-cell") };
+                        let V::Cell(c) = &l else { return untracked(&l, "assignment") };
                         *c.val.borrow_mut() = r.clone();
                         Ok(r)
                     }
                     "+=" | "-=" | "*=" | "/=" | "%=" | "**=" | "<<=" | ">>=" | "&=" | "|=" | "^=" => {
-                        let V::Cell(c) = &l else { return giveup("assignment to a non-cell") };
+                        let V::Cell(c) = &l else { return untracked(&l, "assignment") };
                         let cur = c.val.borrow().clone();
                         let nv = self.num2(&op[..op.len() - 1], &cur, &r)?;
                         *c.val.borrow_mut() = nv.clone();
@@ -705,7 +705,7 @@ impl Machine {
                 let v = self.expr(a, env)?;
                 match *op {
                     "~" => {
-                        let V::Arr(items) = &v else { return giveup("~ on a non-array") };
+                        let V::Arr(items) = &v else { return untracked(&v, "~") };
                         Ok(V::Fun(Rc::new(FunV::ArrIter { items: items.clone(), pos: Cell::new(-1) })))
                     }
                     "$]" => {
@@ -731,7 +731,7 @@ impl Machine {
                             match x {
                                 V::Bool(b) if b != all => return Ok(V::Bool(!all)),
                                 V::Bool(_) => {}
-                                _ => return giveup("bool reduce over non-bool"),
+                                other => return untracked(&other, "bool reduce"),
                             }
                         }
                         Ok(V::Bool(all))
@@ -744,17 +744,26 @@ impl Machine {
                             "$+s" => (V::Str(Rc::from("")), "+"),
                             "$*i" => (V::Int(1), "*"),
                             "$*f" => (V::Float(1.0), "*"),
+                            "$+n" => (V::Int(0), "+"),
+                            "$*n" => (V::Int(1), "*"),
                             "$&" => (V::Int(-1), "&"),
                             "$|" => (V::Int(0), "|"),
                             other => return giveup(&format!("unknown postfix {other}")),
                         };
+                        let mut pulled = 0u32;
                         loop {
                             self.tick()?;
                             let Some((more, x)) = self.pull(&v)? else { break };
                             if !more {
                                 break;
                             }
+                            pulled += 1;
                             acc = self.num2(bop, &acc, &x)?;
+                        }
+                        if pulled == 0 && matches!(*op, "$+f" | "$*f" | "$+s" | "$+n" | "$*n") {
+                            // the neutral element is chosen by the iterator's run-time type tag (0 for an untyped
+                            // empty source): the C01 finding on `$+` / `$*`; the value is left open here
+                            return Ok(V::Unspec);
                         }
                         Ok(acc)
                     }
@@ -910,7 +919,7 @@ impl Machine {
             E::Len(a) => match self.expr(a, env)? {
                 V::Arr(x) => Ok(V::Int(x.items.len() as i64)),
                 V::Str(s) => Ok(V::Int(s.chars().count() as i64)),
-                _ => giveup("len of a non-sequence"),
+                other => untracked(&other, "len"),
             },
         }
     }
